@@ -32,6 +32,8 @@ type Case struct {
 	// reader op: random seek/read history against a file
 	Path     string `json:"path,omitempty"`
 	Truth    []byte `json:"truth,omitempty"`
+	// reader op: take the ground truth from the file itself (os.ReadFile), for files too large to ship in a case
+	TruthFromFile bool `json:"truth_from_file,omitempty"`
 	Ops      int    `json:"ops,omitempty"`
 	Seed     uint64 `json:"seed,omitempty"`
 	ReadPlan []int  `json:"read_plan,omitempty"` // explicit (op,off,len) triples
